@@ -49,6 +49,7 @@ type FS struct {
 	FailErr  error
 	CrashAt  int  // after this many operations nothing is mutated any more (-1: none)
 	Short    bool // reads/writes may transfer fewer bytes than asked
+	ShortOnFail bool // a failing write may have written any prefix
 	Failed   bool // the injected failure has happened
 	Mutated  []string
 	NowSec   int64 // clock (seconds); NowFn overrides
@@ -508,6 +509,23 @@ func (f *FS) h(file *os.File, op string) (*handle, error) {
 	return h, nil
 }
 
+// prefixLen picks the length of the prefix a failing write of n bytes has
+// written: any length for short buffers, representative lengths (field
+// boundaries of a cache index entry among them) for long ones.
+func prefixLen(n int) int {
+	if n <= 8 {
+		return rt.IntRange(0, n-1)
+	}
+	cands := []int{0, 1, 3, 67, 68, 100, 132, 133, 153, 154, 174, n - 1}
+	var ok []int
+	for _, c := range cands {
+		if c < n {
+			ok = append(ok, c)
+		}
+	}
+	return ok[rt.IntRange(0, len(ok)-1)]
+}
+
 // shortN picks how many of n bytes are transferred.
 func (f *FS) shortN(n int) int {
 	if !f.Short || n <= 1 {
@@ -583,8 +601,8 @@ func FileWrite(file *os.File, p []byte) (int, error) {
 	err, live := f.step("write", h.path)
 	if err != nil {
 		// a failing write may have written a prefix
-		if f.Short && len(p) > 0 {
-			k := rt.IntRange(0, len(p)-1)
+		if f.ShortOnFail && len(p) > 0 {
+			k := prefixLen(len(p))
 			if k > 0 {
 				f.writeAt(h, p[:k], h.off, live, "write")
 				h.off += int64(k)
@@ -617,8 +635,8 @@ func FileWriteAt(file *os.File, p []byte, off int64) (int, error) {
 	}
 	err, live := f.step("pwrite", h.path)
 	if err != nil {
-		if f.Short && len(p) > 0 {
-			k := rt.IntRange(0, len(p)-1)
+		if f.ShortOnFail && len(p) > 0 {
+			k := prefixLen(len(p))
 			if k > 0 {
 				f.writeAt(h, p[:k], off, live, "pwrite")
 			}
